@@ -1066,6 +1066,8 @@ pub fn scen_tap_probes(m: &Model, setup: &Setup, iterate_k: usize, probes: usize
     out.push(format!("model {}", m.emit()));
     // root facts after posting (unit clauses leave no tap record)
     let root_facts_after_post: Vec<Predicate> = root_facts(&built.solver);
+    let mut early_records: Vec<TapRecord> = vec![];
+    let mut blocking_at: Vec<(usize, Vec<i32>)> = vec![];
     if let Some(i) = built.failed_at {
         out.meta(format!("posterr at={} kind={}", i, m.cons[i].full_kind()));
     } else {
@@ -1120,13 +1122,22 @@ pub fn scen_tap_probes(m: &Model, setup: &Setup, iterate_k: usize, probes: usize
         let mut n = 0;
         while n < iterate_k {
             match it.next_solution() {
-                IteratedSolution::Solution(..) => n += 1,
+                IteratedSolution::Solution(sol, _, _) => {
+                    n += 1;
+                    // the blocking clause of this solution is added by the next call: remember where
+                    // in the record stream that is
+                    early_records.extend(tap_drain());
+                    if let Some(vs) = extract(sol.as_reference(), &built.vars) {
+                        blocking_at.push((early_records.len(), vs));
+                    }
+                }
                 _ => break,
             }
         }
     }
     tap_enable(false);
-    let records = tap_drain();
+    early_records.extend(tap_drain());
+    let records = early_records;
     let nvars = m.vars.len();
     let in_model = |p: &Predicate| (p.get_domain().id as usize) <= nvars;
     let mut seen: BTreeSet<String> = BTreeSet::new();
@@ -1328,7 +1339,37 @@ pub fn scen_tap_probes(m: &Model, setup: &Setup, iterate_k: usize, probes: usize
         let mut window_ok = true;
         let mut emitted = 0;
         let mut skipped = 0;
-        for r in &records {
+        let mut blocking: Vec<String> = vec![]; // blocking clauses of the solutions handed out so far
+        let mut next_block = 0;
+        let mut n_emitted = 0;
+        let mut n_seen: BTreeSet<String> = BTreeSet::new();
+        for (ri, r) in records.iter().enumerate() {
+            while next_block < blocking_at.len() && blocking_at[next_block].0 <= ri {
+                let sol = &blocking_at[next_block].1;
+                let atoms: Vec<Atom> = sol.iter().enumerate().map(|(x, v)| Atom::Eq(x, *v)).collect();
+                blocking.push(format!("{} none", fmt_atoms(&atoms)));
+                next_block += 1;
+            }
+            // A reason given by the nogood propagator is an instance of a stored nogood: it follows
+            // from the nogoods learned so far, the blocking clauses and the root facts — or it comes
+            // from a clause of the model, in which case the model entails it (the driver tries both).
+            // (not under `NoLearning`: there the reason attached to a flipped decision — the decisions
+            // above it — is recorded under the same name; it states that the search below was exhausted
+            // and is not an instance of a stored nogood)
+            if setup.opts.resolver_uip
+                && r.propagator == "NogoodPropagator"
+                && matches!(r.kind, TapKind::Propagation | TapKind::Conflict | TapKind::AnalysisReason)
+                && n_emitted < 150
+            {
+                if let Some(c) = clause_of(r) {
+                    if n_seen.insert(c.clone()) {
+                        let l: Vec<String> = learned.iter().rev().take(300).cloned().collect();
+                        let all: Vec<&String> = l.iter().chain(blocking.iter()).chain(root.iter()).collect();
+                        out.push(format!("nderive {} {} :: {}", all.len(), all.iter().map(|s| s.as_str()).collect::<Vec<_>>().join(" "), c));
+                        n_emitted += 1;
+                    }
+                }
+            }
             match r.kind {
                 TapKind::Propagation | TapKind::Conflict | TapKind::AnalysisReason => match clause_of(r) {
                     Some(c) => {
@@ -1348,7 +1389,7 @@ pub fn scen_tap_probes(m: &Model, setup: &Setup, iterate_k: usize, probes: usize
                         let ng: Vec<Atom> = r.reason.iter().map(|p| atom_of(*p)).collect();
                         let w: Vec<String> = window.iter().rev().take(300).cloned().collect();
                         let l: Vec<String> = learned.iter().rev().take(300).cloned().collect();
-                        let all: Vec<&String> = w.iter().chain(root.iter()).chain(l.iter()).collect();
+                        let all: Vec<&String> = w.iter().chain(root.iter()).chain(l.iter()).chain(blocking.iter()).collect();
                         out.push(format!(
                             "derive {} {} :: {}",
                             all.len(),
@@ -1369,7 +1410,7 @@ pub fn scen_tap_probes(m: &Model, setup: &Setup, iterate_k: usize, probes: usize
                 _ => {}
             }
         }
-        out.meta(format!("derive emitted={} skipped={}", emitted, skipped));
+        out.meta(format!("derive emitted={} skipped={} nderive={} blocking={}", emitted, skipped, n_emitted, blocking.len()));
     }
     out.meta(format!(
         "tap records={} propagation={} conflict={} analysis={} learned={} distinct={}",
